@@ -285,16 +285,21 @@ def _encode_one(ctx, dsw, case, acc, k, t, V, has1, complete, start, bits, fast,
     read_budget = 4 * L * V + 8  # cut for non-termination; the property's bound itself is checked on the strand length
     proxy = CountingAccessor(acc, read_budget=read_budget)
     del TRACE[:]
+    vt = (0, 0, 0, 1, 3)[(L + start + len(dtype)) % 5]        # a path check requested as well: the result is (strand, check)
     with clock.budget(encode_budget(L, V)) as b, int_str_trap():
         try:
             if verbose:
                 import contextlib
                 import io
                 with contextlib.redirect_stdout(io.StringIO()):
-                    out = dsw.encode(gens.as_message(bits, dtype), proxy, start, is_faster=fast, verbose=True)
+                    out = dsw.encode(gens.as_message(bits, dtype), proxy, start, is_faster=fast, vt_length=vt, verbose=True)
             else:
-                out = dsw.encode(gens.as_message(bits, dtype), proxy, start, is_faster=fast)
+                out = dsw.encode(gens.as_message(bits, dtype), proxy, start, is_faster=fast, vt_length=vt)
             kind = "ok"
+            if vt:
+                ctx.cls("encode with a path check requested")
+                if isinstance(out, tuple) and len(out) == 2 and isinstance(out[1], str) and len(out[1]) == vt:
+                    out = out[0]
         except AccessBudgetExceeded:
             kind, out = "lookups", None
         except clock.BudgetExceeded:
@@ -392,7 +397,7 @@ def floors(agg, tier):
     for name, need in (("t1|normal", 1000), ("t1|fast", 300), ("t2|normal", 1000), ("t2|fast", 300), ("t3|normal", 50),
                        ("t4|normal", 20), ("normal|met out-degree 1", 500), ("normal|met out-degree 3", 200),
                        ("fast|carried L+1", 50), ("family|chain", 100), ("family|localbiofilter", 10), ("msg|zeros", 100),
-                       ("family|deep-sweeps", 20), ("family|order-8", 100), ("family|long-chain", 20), ("list message reused after a refused fast-mode attempt", 60), ("message container|uint8", 2000), ("message container|list", 1000), ("msg|long", 2), ("msg|twin", 200), ("encode with progress output", 500),
+                       ("family|deep-sweeps", 20), ("family|order-8", 100), ("family|long-chain", 20), ("encode with a path check requested", 5000), ("list message reused after a refused fast-mode attempt", 60), ("message container|uint8", 2000), ("message container|list", 1000), ("msg|long", 2), ("msg|twin", 200), ("encode with progress output", 500),
                        ("generation preceded by edited predecessor/successor lists", 100)):
         if c.get(name, 0) < need:
             out.append("%s observed %d < %d" % (name, c.get(name, 0), need))
